@@ -160,15 +160,12 @@ func c17Exec(tc *c17Case, msgs [][]byte, stream []byte, states map[[3]int]struct
 			}
 			off += n
 			if err == io.EOF {
-				// A stateless chunker may report EOF while look-ahead remains in dst[n:]; the
-				// caller then keeps calling with that carry. Bytes are lost only if the carry is
-				// empty (or no progress is made) before everything was delivered.
 				if off == len(stream) {
 					return nil, calls
 				}
-				if len(dst[n:]) == 0 || n == 0 {
-					return &c17Obs{step, "lost-bytes-at-eof", fmt.Sprintf("EOF reported with %d of %d bytes delivered, carry=%d, n=%d", off, len(stream), len(dst[n:]), n)}, calls
-				}
+				// As used by the mux, a chunk returned together with io.EOF is the last one: whatever
+				// the chunker still holds behind it (or has not read) is lost.
+				return &c17Obs{step, "lost-bytes-at-eof", fmt.Sprintf("EOF reported with %d of %d bytes delivered, carry=%d, n=%d", off, len(stream), len(dst[n:]), n)}, calls
 			}
 			if n == 0 && err == nil {
 				return &c17Obs{step, "empty-chunk-no-progress", "n=0 with nil error"}, calls
